@@ -21,6 +21,7 @@ import (
 	"github.com/hashicorp/consul/agent/rpcclient/health"
 	"github.com/hashicorp/consul/agent/structs"
 	"github.com/hashicorp/consul/agent/submatview"
+	"github.com/hashicorp/consul/api"
 	"github.com/hashicorp/consul/internal/verifmc/cmdlib"
 	"github.com/hashicorp/consul/internal/verifmc/dump"
 	"github.com/hashicorp/consul/internal/verifmc/ev"
@@ -32,6 +33,8 @@ import (
 
 type subject struct {
 	label string
+	// authz is what the subscribe endpoint filters events with (nil: full access)
+	authz acl.Authorizer
 	req   func(token string, index uint64) *stream.SubscribeRequest
 	view  func() submatview.View
 	query func(st *state.Store) (uint64, string) // index and canonical result of the direct query
@@ -68,14 +71,26 @@ func canonEntries(es []structs.ConfigEntry) string {
 	return strings.Join(rows, "\n")
 }
 
-func healthSubject(svc string, connect bool) subject {
+// restriction: the subscriber's token may only read these nodes (health) / these entry names (resolver)
+type restriction struct {
+	authz acl.Authorizer
+	node  string
+	entry string
+}
+
+func healthSubject(svc string, connect bool, r *restriction) subject {
 	topic := stream.Topic(state.EventTopicServiceHealth)
 	l := "health(" + svc + ")"
 	if connect {
 		topic = state.EventTopicServiceHealthConnect
 		l = "connect(" + svc + ")"
 	}
-	return subject{label: l,
+	var az acl.Authorizer
+	if r != nil {
+		az = r.authz
+		l += "[token reads node " + r.node + " only]"
+	}
+	return subject{label: l, authz: az,
 		req: func(token string, index uint64) *stream.SubscribeRequest {
 			return &stream.SubscribeRequest{Topic: topic, Subject: state.EventSubjectService{Key: svc, EnterpriseMeta: *structs.DefaultEnterpriseMetaInDefaultPartition()}, Token: token, Index: index}
 		},
@@ -98,14 +113,27 @@ func healthSubject(svc string, connect bool) subject {
 			if err != nil {
 				panic(err)
 			}
+			if r != nil {
+				var keep structs.CheckServiceNodes
+				for _, n := range nodes {
+					if n.Node.Node == r.node {
+						keep = append(keep, n)
+					}
+				}
+				nodes = keep
+			}
 			return idx, canonCSN(nodes)
 		},
 		canon: func(r any) string { return canonCSN(r.(*structs.IndexedCheckServiceNodes).Nodes) },
 	}
 }
 
-func resolverSubject(name string) subject {
+func resolverSubject(name string, r *restriction) subject {
 	s := subject{label: "resolver(" + name + ")"}
+	if r != nil {
+		s.authz = r.authz
+		s.label += "[token reads " + r.entry + " only]"
+	}
 	if name == "*" {
 		s.req = func(token string, index uint64) *stream.SubscribeRequest {
 			return &stream.SubscribeRequest{Topic: state.EventTopicServiceResolver, Subject: stream.SubjectWildcard, Token: token, Index: index}
@@ -117,6 +145,15 @@ func resolverSubject(name string) subject {
 			idx, es, err := st.ConfigEntriesByKind(nil, structs.ServiceResolver, structs.DefaultEnterpriseMetaInDefaultPartition())
 			if err != nil {
 				panic(err)
+			}
+			if r != nil {
+				var keep []structs.ConfigEntry
+				for _, e := range es {
+					if e.GetName() == r.entry {
+						keep = append(keep, e)
+					}
+				}
+				es = keep
 			}
 			return idx, canonEntries(es)
 		}
@@ -202,6 +239,10 @@ type exec struct {
 }
 
 var token = cmdlib.TokenSecrets["t1"]
+
+// svcName has upper-case letters on purpose: subjects are matched case-insensitively and every path
+// that builds a subject (snapshot, events, events routed under a proxy's destination) must fold alike.
+const svcName = "Web"
 
 // newExec: fresh=false forks the scenario's seed world copy-on-write (fast); fresh=true replays the
 // seed on a brand-new store (used to confirm every alarm, like E1 does).
@@ -408,7 +449,11 @@ func (e *exec) pump() {
 				e.trace = append(e.trace, fmt.Sprintf("sub%d.closed-by-server", i))
 				break
 			}
-			if !evt.Payload.HasReadPermission(acl.ManageAll()) {
+			az := s.subj.authz
+			if az == nil {
+				az = acl.ManageAll()
+			}
+			if !evt.Payload.HasReadPermission(az) {
 				continue
 			}
 			pb := evt.Payload.ToSubscriptionEvent(evt.Index)
@@ -549,13 +594,13 @@ func Run(c *ev.Ctx) {
 	n1 := cmdlib.NodeSpec{Node: "n1", ID: "id1", Addr: "10.0.0.1"}
 	n1b := cmdlib.NodeSpec{Node: "n1", ID: "id1", Addr: "10.0.0.9"}
 	n2 := cmdlib.NodeSpec{Node: "n2", Addr: "10.0.0.2"}
-	a1 := cmdlib.SvcSpec{ID: "a1", Name: "a", Port: 80}
-	a1p := cmdlib.SvcSpec{ID: "a1", Name: "a", Port: 81}
+	a1 := cmdlib.SvcSpec{ID: "a1", Name: svcName, Port: 80}
+	a1p := cmdlib.SvcSpec{ID: "a1", Name: svcName, Port: 81}
 	a1b := cmdlib.SvcSpec{ID: "a1", Name: "b", Port: 80} // the instance changes its service name
-	a2 := cmdlib.SvcSpec{ID: "a2", Name: "a", Port: 80}
-	a3 := cmdlib.SvcSpec{ID: "a3", Name: "a", Port: 83}
-	proxy := cmdlib.SvcSpec{ID: "a1-proxy", Name: "a-proxy", Kind: structs.ServiceKindConnectProxy, DestName: "a", Port: 20000}
-	native := cmdlib.SvcSpec{ID: "a4", Name: "a", Port: 84, Native: true}
+	a2 := cmdlib.SvcSpec{ID: "a2", Name: svcName, Port: 80}
+	a3 := cmdlib.SvcSpec{ID: "a3", Name: svcName, Port: 83}
+	proxy := cmdlib.SvcSpec{ID: "a1-proxy", Name: "a-proxy", Kind: structs.ServiceKindConnectProxy, DestName: svcName, Port: 20000}
+	native := cmdlib.SvcSpec{ID: "a4", Name: svcName, Port: 84, Native: true}
 	catalog := []write{
 		{op: cmdlib.RegService(n1, a1)}, {op: cmdlib.RegService(n1, a1p)}, {op: cmdlib.RegService(n2, a2)}, {op: cmdlib.RegService(n1, a3)}, {op: cmdlib.RegService(n1, a1b)},
 		{op: cmdlib.DeregService("n1", "a1", "")}, {op: cmdlib.DeregNode("n1", "")}, {op: cmdlib.RegNode(n1b)},
@@ -565,7 +610,7 @@ func Run(c *ev.Ctx) {
 		{op: cmdlib.RegService(n1, proxy)}, {op: cmdlib.RegService(n2, native)}, {op: cmdlib.DeregService("n1", "a1-proxy", "")},
 	}
 	resolver := []write{
-		{op: cmdlib.Resolver("a", cmdlib.ResolverOpt{}).Upsert()}, {op: cmdlib.Resolver("a", cmdlib.ResolverOpt{Subsets: []string{"v1"}}).Upsert()}, {op: cmdlib.Resolver("a", cmdlib.ResolverOpt{}).Delete()},
+		{op: cmdlib.Resolver(svcName, cmdlib.ResolverOpt{}).Upsert()}, {op: cmdlib.Resolver(svcName, cmdlib.ResolverOpt{Subsets: []string{"v1"}}).Upsert()}, {op: cmdlib.Resolver(svcName, cmdlib.ResolverOpt{}).Delete()},
 		{op: cmdlib.Resolver("b", cmdlib.ResolverOpt{}).Upsert()}, {op: cmdlib.Resolver("b", cmdlib.ResolverOpt{}).Delete()},
 	}
 	tokenSeed := []world.Op{cmdlib.PolicySet("p1", "policy-one", `service_prefix "" { policy = "read" } node_prefix "" { policy = "read" }`), cmdlib.TokenSet(cmdlib.TokenSpec{ID: "t1", Policies: []string{"p1"}}, false, 0, false)}
@@ -575,10 +620,10 @@ func Run(c *ev.Ctx) {
 
 	seedEmpty := append(append([]world.Op{}, tokenSeed...), cmdlib.RegNode(n1), cmdlib.RegNode(n2))
 	seedA := append(append([]world.Op{}, seedEmpty...), cmdlib.RegService(n1, a1), cmdlib.RegService(n1, a3), cmdlib.RegCheck(n1, cmdlib.CheckSpec{ID: "c1", Status: "passing", ServiceID: "a1"}),
-		cmdlib.RegService(n1, proxy), cmdlib.Resolver("a", cmdlib.ResolverOpt{}).Upsert())
+		cmdlib.RegService(n1, proxy), cmdlib.Resolver(svcName, cmdlib.ResolverOpt{}).Upsert())
 
-	hA, hC := healthSubject("a", false), healthSubject("a", true)
-	rA, rW := resolverSubject("a"), resolverSubject("*")
+	hA, hC := healthSubject(svcName, false, nil), healthSubject(svcName, true, nil)
+	rA, rW := resolverSubject(svcName, nil), resolverSubject("*", nil)
 
 	type progSet struct {
 		label string
@@ -662,6 +707,43 @@ func Run(c *ev.Ctx) {
 			}
 		}
 	}
+	// subscribers with different permissions on one subject: they share topic buffers and the cached
+	// snapshot, and batches holding several events are filtered per subscriber
+	mkAuthz := func(rules string) acl.Authorizer {
+		pol, err := acl.NewPolicyFromSource(rules, nil, nil)
+		if err != nil {
+			panic(err)
+		}
+		a, err := acl.NewPolicyAuthorizerWithDefaults(acl.DenyAll(), []*acl.Policy{pol}, nil)
+		if err != nil {
+			panic(err)
+		}
+		return a
+	}
+	hAr := healthSubject(svcName, false, &restriction{authz: mkAuthz(`node "n1" { policy = "read" } service_prefix "" { policy = "read" }`), node: "n1"})
+	rWr := resolverSubject("*", &restriction{authz: mkAuthz(`service "` + svcName + `" { policy = "read" }`), entry: svcName})
+	twoNodes := write{op: cmdlib.Txn(cmdlib.TxnService(api.ServiceSet, "n1", a1p, 0), cmdlib.TxnService(api.ServiceSet, "n2", a2, 0))}
+	twoNodesBack := write{op: cmdlib.Txn(cmdlib.TxnService(api.ServiceSet, "n1", a1, 0), cmdlib.TxnService(api.ServiceSet, "n2", cmdlib.SvcSpec{ID: "a2", Name: svcName, Port: 86}, 0))}
+	mixedCatalog := []write{twoNodes, twoNodesBack, catalog[0], catalog[2], catalog[6], catalog[7]}
+	mixedProgs := []progSet{
+		{"restricted and unrestricted subscriber", nil, [][]string{{aSub}, {aSub}}},
+		{"restricted and unrestricted subscriber, the restricted one leaves", nil, [][]string{{aSub, aDisc}, {aSub}}},
+	}
+	for si, seed := range [][]world.Op{seedEmpty, seedA} {
+		for _, ws := range seqs(mixedCatalog, 2) {
+			for _, ps := range mixedProgs {
+				scenarios = append(scenarios, &scenario{label: fmt.Sprintf("seed%d: %s / %s / %s", si, label(ws), ps.label, hAr.label), seed: seed, writes: ws,
+					subj: []subject{hAr, hA}, programs: ps.progs, once: new(sync.Once)})
+			}
+		}
+		for _, ws := range seqs(resolver, 2) {
+			for _, ps := range mixedProgs {
+				scenarios = append(scenarios, &scenario{label: fmt.Sprintf("seed%d: %s / %s / %s", si, label(ws), ps.label, rWr.label), seed: append(append([]world.Op{}, seed...), cmdlib.Resolver("b", cmdlib.ResolverOpt{}).Upsert(), cmdlib.Resolver("c", cmdlib.ResolverOpt{}).Upsert()), writes: ws,
+					subj: []subject{rWr, rW}, programs: ps.progs, once: new(sync.Once)})
+			}
+		}
+	}
+
 	// forced resubscription: a token/policy change or a restore between ordinary writes
 	for _, special := range []write{aclWrite, policyWrite, restore} {
 		for _, w1 := range []write{catalog[0], catalog[5], catalog[9]} {
